@@ -39,6 +39,9 @@ def cases(tier, seed):
                  long_stall=r.choice([0, 0, 0.01]), pre=r.choice([16, 16, 4]), post=r.choice([16, 16, 4]), seed="C13/%d/%d" % (seed, k))
         if c["schedule"] == "packets":
             c["long_stall"], c["extra_lat"] = 0, r.choice([(0, 0), (0, 8), (0, 30)])
+            # bounded-latency checkpoints only where the two open bypass / ratio > 1 findings cannot be involved (those leave
+            # words inside by themselves): the packets schedule runs at ratio 1
+            c["ratio"] = ratio = 1
         c["name"] = "%04d-%s-w%d-x%d-d%d-%s" % (k, "bypass" if bypass else "plain", dw, ratio, depth_words, c["schedule"])
         c["cost"] = depth_words * ratio * c["factor"]
         out.append(c)
@@ -53,6 +56,8 @@ def cases(tier, seed):
                  schedule=SCHEDULES[k % len(SCHEDULES)], factor=r.randint(5, 8), cmd_ready_prob=1.0, extra_lat=(0, 0), long_stall=0,
                  pre=r.choice([16, 4]), post=r.choice([16, 4]), cmd_buffer_depth=r.choice([4, 8, 16]), refresh=(k % 5 != 4),
                  seed="C13/%d/core/%d" % (seed, k))
+        if c["schedule"] == "packets":
+            c["ratio"] = ratio = 1
         c["name"] = "core%03d-%s-w%d-x%d-d%d-%s" % (k, "bypass" if bypass else "plain", dw, ratio, depth_words, c["schedule"])
         c["cost"] = depth_words * ratio * c["factor"] * 6
         out.append(c)
